@@ -26,6 +26,10 @@ for d in $cands . ; do
   dn=$(grep -m1 '^package ' "$wt/$d/$p" | awk '{print $2}')
   if [ "$dn" = "$pkgname" ] || [ "${dn}_test" = "$pkgname" ]; then place="$d"; break; fi
 done
+if [ -z "$place" ]; then
+  base=${pkgname%_test}
+  place=$(cd "$wt" && grep -rl --include=*.go "^package $base\$" . | grep -v _test.go | xargs -n1 dirname | sort -u | sed 's#^\./##' | head -1)
+fi
 [ -n "$place" ] || { echo "RESULT $name: cannot place demo (package $pkgname; candidates: $cands)"; exit 2; }
 echo "demo $(basename $demo) -> $place"
 cp "$demo" "$wt/$place/"
